@@ -226,6 +226,49 @@ def _before(cfg, g: ast.If, cn: Node) -> bool:
     return cn in cfg.reachable(gn, labels_avoid=("exc",)) and gn not in cfg.reachable(cn, labels_avoid=("exc",))
 
 
+def _manual_counter_guard(ctx: Ctx, f: Func, cfg, loop: Node, inc: Node, conds, defs, bsrc: str, body_start) -> Tuple[bool, str]:
+    """The guard of the increment tests a counter that is advanced by +-1 exactly once per iteration: decide for which
+    iterations k = 1..N the guard holds (must be all but the last), for two list lengths N."""
+    for c, lab in conds:
+        names = [x.id for x in ast.walk(c.ast) if isinstance(x, ast.Name)]
+        for cv in names:
+            ups = [n for n in cfg.live if n.kind == "stmt" and isinstance(n.ast, ast.AugAssign) and src(n.ast.target) == cv and isinstance(n.ast.op, (ast.Add, ast.Sub)) and isinstance(n.ast.value, ast.Constant) and n.ast.value.value == 1]
+            if len(ups) != 1 or not defs.get(cv) or len(defs[cv]) != 1:
+                continue
+            up = ups[0]
+            d = 1 if isinstance(up.ast.op, ast.Add) else -1
+            # the update runs exactly once on every path through the loop body
+            if not body_start or not (up is body_start[0] or cfg.all_paths_pass(body_start[0], loop, lambda n, up=up: n is up, labels_avoid=("exc",))):
+                continue
+            if any(n is not up and n.kind == "stmt" and n.ast is not None and any(isinstance(x, ast.Name) and x.id == cv and isinstance(x.ctx, ast.Store) for x in ast.walk(n.ast)) for n in cfg.reachable(body_start[0], labels_avoid=("exc",)) if loop in cfg.reachable(n, labels_avoid=("exc",))):
+                continue
+            before_guard = c in cfg.reachable(up, labels_avoid=("exc",)) and not (up in cfg.reachable(c, labels_avoid=("exc",)) and cfg.dominates(c, up))
+            verdicts = []
+            for N in (1000, 7):
+                symenv = {f"len({bsrc})": N}
+                for k_, v_ in defs.items():
+                    if v_ and src(v_[0]) == f"len({bsrc})":
+                        symenv[k_] = N
+                a = ctx.folder.fold(defs[cv][0], f.module, symenv)
+                if not isinstance(a, int):
+                    verdicts = []
+                    break
+                try:
+                    s_ = cond_to_intset(c.ast, lambda x: isinstance(x, ast.Name) and x.id == cv, lambda x: ctx.folder.fold(x, f.module, {k2: v2 for k2, v2 in symenv.items() if k2 != cv}))
+                except NotInterval:
+                    verdicts = []
+                    break
+                if lab == "F":
+                    s_ = s_.complement()
+                holds = [k for k in range(1, N + 1) if s_.contains(a + d * (k if before_guard else k - 1))]
+                verdicts.append(holds == list(range(1, N)))
+            if verdicts and all(verdicts):
+                return True, ""
+            if verdicts:
+                return False, f"the increment is guarded by the hand-kept counter `{cv}`, but the guard does not hold for exactly all items except the last"
+    return False, ""
+
+
 def _traversal(ctx: Ctx, rep: Report, f: Func) -> None:  # noqa: C901
     cfg = ctx.cfg(f)
     fors = [n for n in cfg.live if n.kind == "for"]
@@ -331,6 +374,13 @@ def _traversal(ctx: Ctx, rep: Report, f: Func) -> None:  # noqa: C901
                 okc = True
             else:
                 why = f"the increment runs for positions {got} of {dom} (expected all but the last)"
+        if not okc and conds:
+            # a counter kept by hand: `c = len(xs)` / `c = 0` before the loop, `c -= 1` / `c += 1` once per iteration
+            okc2, why2 = _manual_counter_guard(ctx, f, cfg, loop, inc, conds, defs, bsrc, body_start)
+            if okc2:
+                okc = True
+            elif why2:
+                why = why2
         # no path through the loop body may bypass the guard altogether (e.g. a `continue` before it)
         good_guards = [c for c, lab in conds]
         bypass = None
